@@ -34,7 +34,7 @@ type c08Scenario struct {
 	Tasks          int        `json:"tasks"`
 	BackPressure   int        `json:"backpressure_window,omitempty"` // >0: the server's receive window; it stops reading for a while
 	StallMs        int        `json:"server_stops_reading_ms,omitempty"`
-	FailWrite      int        `json:"fail_write_j"`                  // j-th socket write after establishment fails (0: none)
+	FailWrite      int        `json:"fail_write_j"` // j-th socket write after establishment fails (0: none)
 	Partial        int        `json:"fail_partial_bytes"`
 	Seg            int        `json:"segmentation"`
 	LatencyNs      int64      `json:"latency_ns"`
